@@ -1,7 +1,7 @@
 (* Well-formedness through a connection close, continued: phases B and A, net_closed_raw, net_closed. *)
 From GM Require Import Base.Prelude Base.Outcome Codec.Packets Codec.Settings Engine.Model
   EngineProofs.AssocLemmas EngineProofs.WFLemmas EngineProofs.WFDefs EngineProofs.WFCore EngineProofs.WFComplete
-  EngineProofs.WFClose.
+  EngineProofs.WFClose EngineProofs.WFTrack.
 From Coq Require Import Sorting.Sorted.
 From RecordUpdate Require Import RecordSet.
 Import RecordSetNotations.
@@ -82,8 +82,18 @@ Section Close2.
   Ltac splits := repeat match goal with |- _ /\ _ => split end.
   Ltac core_cbn := unfold tracked, inq; cbn [core_of c_ops c_uq c_rq c_hq c_cur c_alloc c_ppub c_pnon c_pwco c_nid c_npid].
 
-  Lemma closed_res_pid (s s' : state) (r : res) : pidpres s s' -> closed_res s' r -> closed_res s r.
-  Proof. intros P [A B C D E]. constructor; auto. eapply pidpres_trans; eauto. Qed.
+  Lemma closed_res_pid (s s' : state) (r : res) : pidpres s s' -> (TR s -> TR s') -> closed_res s' r -> closed_res s r.
+  Proof. intros P T [A B C D E G]. constructor; auto. eapply pidpres_trans; eauto. Qed.
+
+  (* a queue adjustment followed by the failure of the rejected operations *)
+  Lemma closed_res_pre ids (s s1 : state) (r : res) f :
+    pidpres s s1 -> fail_spec cfg [] ids s1 r -> (TR s -> TR (r_s r)) -> closed_res (r_s r) (f (r_s r)) ->
+    closed_res s (andthen r f).
+  Proof.
+    intros P F T C. pose proof (closed_res_andthen cfg ids s1 r f F C) as [A B D E G H].
+    constructor; auto. eapply pidpres_trans; eauto. intros HT.
+    rewrite andthen_s by (apply (fs_nopanic _ _ _ _ _ F)). apply C. apply T. exact HT.
+  Qed.
 
   Lemma phaseB_spec (s5 : state) :
     WFS s5 -> s_st s5 = Disconnected -> s_hq s5 = [] -> s_tmo s5 = [] -> s_cur s5 = None ->
@@ -100,8 +110,15 @@ Section Close2.
         apply partition_kept in Hk. tauto. }
     assert (Hst6 : s_st s6 = Disconnected) by exact Hst.
     pose proof (fail_all_spec cfg [] rejected s6 EOfflineQueuePolicyFailed HW6 (W9_disc cfg s6 Hst6)) as F6.
-    eapply closed_res_pid; [apply (pidpres_ops s5 s6); reflexivity|].
-    eapply closed_res_andthen; [exact F6|].
+    eapply (closed_res_pre _ s5 s6); [apply (pidpres_ops s5 s6); reflexivity|exact F6| |].
+    { intros HT. apply (TR_gen s5 _ HT). intros i o' Hi Hp. right. exists o'.
+      pose proof (fc_sub _ _ _ (fs_frame _ _ _ _ _ F6) _ _ Hi) as Hi6. split; [exact Hi6|]. splits; auto.
+      destruct (rest_fields _ _ (fc_rest _ _ _ (fs_frame _ _ _ _ _ F6))) as (R1 & R2 & R3 & R4 & R5 & _).
+      unfold inQ. rewrite R1, R2, R3, R4, R5. cbn. intros [Q|[Q|[Q|[Q|Q]]]]; try tauto; [left; apply in_or_app; tauto|].
+      left. apply in_or_app. right.
+      assert (He : op_exists s5 i = true) by (unfold op_exists; unfold getop in Hi6; cbn in Hi6; rewrite Hi6; reflexivity).
+      destruct (partition_cases cfg s5 (s_pwco s5) i Q He) as [Hk|Hk]; rewrite Epart in Hk; cbn [fst snd] in Hk; [exact Hk|].
+      pose proof (fs_gone _ _ _ _ _ F6 _ Hk) as Hg. congruence. }
     set (s7 := r_s (fail_all cfg s6 rejected EOfflineQueuePolicyFailed)) in *.
     destruct (rest_fields _ _ (fc_rest _ _ _ (fs_frame _ _ _ _ _ F6))) as (_ & _ & R3 & R4 & R5 & R6 & _).
     assert (Hst7 : s_st s7 = Disconnected) by (eapply disc_frame; [apply F6|exact Hst6]).
@@ -129,8 +146,15 @@ Section Close2.
     assert (Hst4 : s_st s4 = Disconnected) by exact Hst.
     match goal with |- context [fail_all cfg s4 ?l ?e] =>
       pose proof (fail_all_spec cfg [] l s4 e HW4 (W9_disc cfg s4 Hst4)) as F4; set (r4 := fail_all cfg s4 l e) in * end.
-    eapply closed_res_pid; [apply (pidpres_ops s3 s4); reflexivity|].
-    eapply closed_res_andthen; [exact F4|].
+    eapply (closed_res_pre _ s3 s4); [apply (pidpres_ops s3 s4); reflexivity|exact F4| |].
+    { intros HT. apply (TR_gen s3 _ HT). intros i o' Hi Hp. right. exists o'.
+      pose proof (fc_sub _ _ _ (fs_frame _ _ _ _ _ F4) _ _ Hi) as Hi4. split; [exact Hi4|]. splits; auto.
+      destruct (rest_fields _ _ (fc_rest _ _ _ (fs_frame _ _ _ _ _ F4))) as (R1 & R2 & R3 & R4 & R5 & _).
+      unfold inQ. rewrite R1, R2, R3, R4, R5. cbn. intros [Q|[Q|[Q|[Q|Q]]]]; try tauto. exfalso.
+      destruct (HT i o' Hi4 Hp) as (_ & Hpr & _).
+      assert (Hin : In i (filter (fun id => negb (has_pubrel s4 id)) (s_hq s3))).
+      { apply filter_In. split; [exact Q|]. unfold has_pubrel. unfold getop in Hi4. cbn in Hi4 |- *. rewrite Hi4, Hpr. reflexivity. }
+      pose proof (fs_gone _ _ _ _ _ F4 _ Hin) as Hg. congruence. }
     destruct (rest_fields _ _ (fc_rest _ _ _ (fs_frame _ _ _ _ _ F4))) as (_ & _ & R3 & R4 & R5 & R6 & _).
     apply phaseB_spec.
     - apply F4.
@@ -157,25 +181,28 @@ Section Close2.
                  <| s_ping_to := None |> <| s_tmo := [] |>).
     assert (HW0 : WFS s0) by exact HW.
     destruct (closed_current_spec cfg s0 HW0 eq_refl) as (A1 & A2 & A3 & A4 & A5 & A6).
+    pose proof (closed_current_tr cfg s0 HW0 eq_refl) as A7.
     cbv zeta. rewrite (try_ok _ _ A1).
     set (s1 := r_s (closed_current cfg s0)) in *.
-    destruct (slow_start_init_spec cfg s1 A2) as (s2 & E2 & B1 & B2 & B3 & B4 & B5). rewrite E2.
-    destruct (update_retries_spec cfg s2 B1) as (s3 & E3 & C1 & C2 & C3 & C4 & C5). rewrite E3.
+    destruct (slow_start_init_spec cfg s1 A2) as (s2 & E2 & B1 & B2 & B3 & B4 & B5 & B6). rewrite E2.
+    destruct (update_retries_spec cfg s2 B1) as (s3 & E3 & C1 & C2 & C3 & C4 & C5 & C6). rewrite E3.
     apply closed_res_repack.
     assert (T0 : s_tmo s0 = []) by reflexivity.
-    eapply closed_res_pid; [|apply phaseA_spec; try assumption; congruence].
-    eapply pidpres_trans; [|exact C5]. eapply pidpres_trans; [|exact B5].
-    eapply pidpres_trans; [|exact A6]. apply (pidpres_ops s s0); reflexivity.
+    eapply closed_res_pid; [| |apply phaseA_spec; try assumption; congruence].
+    - eapply pidpres_trans; [|exact C5]. eapply pidpres_trans; [|exact B5].
+      eapply pidpres_trans; [|exact A6]. apply (pidpres_ops s s0); reflexivity.
+    - intros HT. apply C6, B6, A7. apply (TR_queues s); [reflexivity| |exact HT]. unfold inQ. cbn. tauto.
   Qed.
 
   (* the close event proper *)
   Lemma net_closed_spec (s : state) :
     WFS s -> s_st s <> Disconnected ->
     let r := net_closed cfg s in
-    r_out r = Ok tt /\ WFS (r_s r) /\ s_st (r_s r) = Disconnected /\ closed_fields (r_s r) /\ pidpres s (r_s r).
+    r_out r = Ok tt /\ WFS (r_s r) /\ s_st (r_s r) = Disconnected /\ closed_fields (r_s r) /\ pidpres s (r_s r) /\
+    (TR s -> TR (r_s r)).
   Proof.
-    intros HW Hst. destruct (net_closed_raw_spec s HW Hst) as [A B C D E]. unfold net_closed.
-    apply pstate_eqb_neq in Hst. rewrite Hst. destruct A as [A|A]; rewrite A; cbn [r_s r_out]; auto.
+    intros HW Hst. destruct (net_closed_raw_spec s HW Hst) as [A B C D E G]. unfold net_closed.
+    apply pstate_eqb_neq in Hst. rewrite Hst. destruct A as [A|A]; rewrite A; cbn [r_s r_out]; repeat (split; [solve [auto]|]); exact G.
   Qed.
 
   Lemma net_closed_disconnected (s : state) :
